@@ -114,6 +114,10 @@ def exhaustive_E2(max_len=2, tmax=3, emax=2):
             yield [('add', 0, u, v, t, e) for (u, v, t, e) in h]
 
 
+# probability of a LONG timeline in a random state (set by the engine so that a run holds about 30 of them, whatever the tier)
+MANY_RUNS_P = 0.05
+
+
 def exhaustive_E3(max_len=3, tmax=3, emax=3):
     """the two orientations of ONE pair, every history of <= max_len calls: reciprocal arcs on the digraph (whose
     events may share instants), either endpoint order on the graph"""
